@@ -15,14 +15,22 @@
 //	    lengths 70000, 65534 (2s), 2^32-2 (2b) and of the unknown-length stream
 //	    (node counter 2^32-1, then EOF), and a 200000-byte unknown-length BLAKE2Xs read;
 //	G4  a reduced G1 on every other hashBlocks implementation;
-//	G5  NewXOF argument rules.
+//	G5  NewXOF argument rules;
+//	G6  long declared lengths 2^k + {-1,0,1,N-1,N,N+1} with reads whose boundaries sit on
+//	    and cross those points.
+//
+// Hardening pass: keys/messages/read destinations are caller-owned (overwritten after each
+// call, guard zone behind every destination), G1 patterns run on reused (Reset) objects,
+// the unknown-length read runs to 4 MiB.
 package main
 
 import (
 	"bytes"
 	"fmt"
 	"io"
+	"sort"
 	"strings"
+	"time"
 
 	"golang.org/x/crypto/blake2b"
 	"golang.org/x/crypto/blake2s"
@@ -126,12 +134,25 @@ type reader struct {
 // (k = 0 when min is 0), err == nil, or io.EOF only when the stream is exhausted by or
 // before this call; an exhausted stream must answer (0, io.EOF).
 func (r *reader) read(n int) string {
-	buf := make([]byte, n)
+	// destination with old contents (never zero) and a guard zone behind len(buf)
+	const guard = 8
+	full := make([]byte, n+guard)
+	for i := range full {
+		full[i] = 0xA5
+	}
+	buf := full[:n]
 	var k int
 	var err error
 	if p, v, _ := vf.Protect(func() { k, err = r.x.Read(buf) }); p {
 		return fmt.Sprintf("Read panics | %v", v)
 	}
+	for _, g := range full[n:] {
+		if g != 0xA5 {
+			return "Read writes behind the end of the destination slice"
+		}
+	}
+	// the buffer belongs to the caller again: it is overwritten before the next call
+	defer clobber(full)
 	left := r.total - r.pos
 	if left == 0 {
 		if k != 0 || err != io.EOF {
@@ -188,6 +209,45 @@ func (r *reader) drain(n int, limit uint64) string {
 	return ""
 }
 
+func clobber(b []byte) {
+	for i := range b {
+		b[i] ^= 0xFF
+	}
+}
+
+// pow2Points lists, ascending, every 2^k + {-1,0,1,N-1,N,N+1} (k = kmin..kmax) in 1..upto.
+func pow2Points(N, kmin, kmax int, upto uint64) []uint64 {
+	seen := map[uint64]bool{}
+	var out []uint64
+	for k := kmin; k <= kmax; k++ {
+		for _, d := range []int{-1, 0, 1, N - 1, N, N + 1} {
+			p := uint64(int64(1)<<k + int64(d))
+			if p >= 1 && p <= upto && !seen[p] {
+				seen[p] = true
+				out = append(out, p)
+			}
+		}
+	}
+	sort.Slice(out, func(i, j int) bool { return out[i] < out[j] })
+	return out
+}
+
+// readTo reads with one Read call per gap between consecutive points (so every point is a
+// chunk boundary), starting at the reader's current position.
+func (r *reader) readTo(points []uint64) string {
+	for _, p := range points {
+		if p <= r.pos || p > r.total {
+			continue
+		}
+		for r.pos < p { // a Read may legally return less than asked
+			if m := r.read(int(p - r.pos)); m != "" {
+				return m
+			}
+		}
+	}
+	return ""
+}
+
 func cut(m string) string { cat, _, _ := strings.Cut(m, " | "); return cat }
 
 func pattern(c *vf.Ctx, label string, n int) []byte { return c.Bytes(label, 0, n) }
@@ -196,7 +256,10 @@ func run(c *vf.Ctx) {
 	c.Rule("for blake2b and blake2s XOFs: (G1) declared length {1..130 all, 255,256,257, 1000, 65534, 65535(2b)/rejected(2s), 65536, 70000 (2b), unknown} x key {none,max} x msg {empty, B+1 bytes}: " +
 		"one exact Read, one oversized Read, every constant chunk size 1..200 (a subset for lengths > 1000) with interleaved zero-length reads, to EOF; " +
 		"(G2) every history over {Read(0,1,N-1,N,N+1,2N-1,2N,2N+1,200), CloneSwitch, CloneKeep, Write(1), Reset} to depth D for lengths straddling node boundaries and unknown, all objects drained afterwards; " +
-		"(G3) last nodes of very long / unknown-length outputs via the skip hook, 200000-byte unknown-length read; (G4) reduced G1 on every other hashBlocks implementation; (G5) NewXOF argument rules. " +
+		"(G3) last nodes of very long / unknown-length outputs via the skip hook; real unknown-length reads of 2^22+2N bytes (2^24 thorough) with chunkings {4096, 65537, one Read, 2048N-1, one Read per gap between all points 2^k+{-1,0,1,N-1,N,N+1}}; (G4) reduced G1 on every other hashBlocks implementation; (G5) NewXOF argument rules; " +
+		"(G6) declared lengths 2^k+{-1,0,1,N-1,N,N+1}, k=8..20 (22 thorough; up to 65534 for BLAKE2Xs) x key {none,max}: one Read, oversized Read, one Read per gap between the 2^k points, strides 4095 and 65537, all on one object that is Reset between patterns. " +
+		"Caller-owned buffers everywhere: key and message are private copies overwritten right after NewXOF/Write return (stream, and stream after Reset, must be those of the original key); every Read gets a destination pre-filled with 0xA5 plus a guard zone that must stay intact, and the destination is overwritten before the next call. " +
+		"Non-initial states: in G1 two of three reading patterns run on the object of the previous pattern after Reset (drained, or abandoned mid-stream for unknown length). " +
 		"non-trivial = distinct (alg,length,key,msg,chunk) whose reads cross a node boundary or hit EOF with a partial last node, and every history from depth 2. oracle = BLAKE2X model (ref/blake2ref)")
 	c.Assume("reference model verif/ref/blake2ref (validated against the official BLAKE2X KATs for known lengths; unknown length = XOF-length parameter 2^32-1 / 2^16-1 and full nodes, per blake2x.pdf section 2)")
 	c.Assume("a Read may legally return fewer bytes than asked (io.Reader); what is demanded is the byte stream, its exact total before io.EOF, and (0,io.EOF) afterwards")
@@ -204,9 +267,15 @@ func run(c *vf.Ctx) {
 
 	for _, a := range xalgs() {
 		g5(c, a)
+		t0 := time.Now()
 		g1(c, a, "default", false)
+		t1 := time.Now()
 		g2(c, a)
+		t2 := time.Now()
 		g3(c, a)
+		t2b := time.Now()
+		g6(c, a)
+		t3 := time.Now()
 		for _, p := range a.paths()[1:] {
 			if !a.setPath(p) {
 				c.Violation(a.class("dispatch hook could not select "+p), nil)
@@ -215,6 +284,7 @@ func run(c *vf.Ctx) {
 			g1(c, a, p, true)
 		}
 		a.restore()
+		c.Set("wall_s_"+a.name, fmt.Sprintf("G1=%.1f G2=%.1f G3=%.1f G6=%.1f G4=%.1f", t1.Sub(t0).Seconds(), t2.Sub(t1).Seconds(), t2b.Sub(t2).Seconds(), t3.Sub(t2b).Seconds(), time.Since(t3).Seconds()))
 	}
 }
 
@@ -258,17 +328,34 @@ func g1(c *vf.Ctx, a *xalg, path string, reduced bool) {
 		}
 		stream := a.ref(g.size, g.key, g.msg, 0, int(span))
 		want := func(from uint64, n int) []byte { return stream[from : from+uint64(n)] }
-		mk := func(split bool) (*reader, string) {
-			x, err := a.newXOF(g.size, g.key)
-			if err != nil {
-				return nil, "NewXOF rejects a valid length/key: " + err.Error()
-			}
-			if split && len(g.msg) > 1 {
-				x.Write(g.msg[:1])
-				x.Write(g.msg[1:])
+		// mk builds the XOF for one reading pattern. The caller owns its buffers: key and
+		// message are private copies that are overwritten as soon as NewXOF / Write return.
+		// With reuse != nil the object of an earlier pattern (drained, or abandoned in the
+		// middle of the stream) is Reset and fed again instead: Reset must restore the
+		// initial state keyed with the ORIGINAL key.
+		mk := func(split bool, reuse *reader) (*reader, string) {
+			var x xofI
+			if reuse != nil {
+				x = reuse.x
+				x.Reset()
 			} else {
-				x.Write(g.msg)
+				pk := append([]byte(nil), g.key...) // nil stays nil
+				var err error
+				x, err = a.newXOF(g.size, pk)
+				if err != nil {
+					return nil, "NewXOF rejects a valid length/key: " + err.Error()
+				}
+				clobber(pk)
 			}
+			pm := append([]byte(nil), g.msg...)
+			if split && len(pm) > 1 {
+				x.Write(pm[:1])
+				clobber(pm[:1])
+				x.Write(pm[1:])
+			} else {
+				x.Write(pm)
+			}
+			clobber(pm)
 			return &reader{a: a, x: x, total: a.total(g.size), want: want}, ""
 		}
 		fail := func(what, m string, extra map[string]any) {
@@ -280,7 +367,7 @@ func g1(c *vf.Ctx, a *xalg, path string, reduced bool) {
 			c.Violation(a.class(what+": "+cat+" ["+path+"]"), d)
 		}
 		// one exact read, then EOF
-		r, m := mk(false)
+		r, m := mk(false, nil)
 		if m != "" {
 			fail("constructor", m, nil)
 			return
@@ -291,7 +378,7 @@ func g1(c *vf.Ctx, a *xalg, path string, reduced bool) {
 			return
 		}
 		// oversized read
-		r, _ = mk(true)
+		r, _ = mk(true, r) // reused: Reset of a drained object
 		c.Eval(1)
 		if g.size != 0 {
 			if m := r.drain(int(span)+50, 0); m != "" {
@@ -312,7 +399,13 @@ func g1(c *vf.Ctx, a *xalg, path string, reduced bool) {
 			chunks = []int{1, a.node - 1, a.node + 1, 200}
 		}
 		for _, k := range chunks {
-			r, _ = mk(k%2 == 0)
+			// two of three patterns run on the Reset object of the previous pattern
+			// (non-initial state), every third on a fresh one
+			if k%3 == 1 {
+				r, _ = mk(k%2 == 0, nil)
+			} else {
+				r, _ = mk(k%2 == 0, r)
+			}
 			c.Eval(1)
 			// interleave zero-length reads when k is a multiple of 3
 			var m string
@@ -412,11 +505,15 @@ func g2(c *vf.Ctx, a *xalg) {
 			},
 			Run: func(hist []xop) (key string, stop bool, mis string) {
 				defer recoverRun(&stop, &mis)
-				x, err := a.newXOF(cf.size, cf.key)
+				pk := append([]byte(nil), cf.key...) // nil stays nil
+				x, err := a.newXOF(cf.size, pk)
 				if err != nil {
 					return "", true, "NewXOF rejects valid arguments"
 				}
-				x.Write(base)
+				clobber(pk) // caller-owned: every later Reset must re-key with the ORIGINAL key
+				pb := append([]byte(nil), base...)
+				x.Write(pb)
+				clobber(pb)
 				wpanics := 0
 				written := 0     // extra bytes absorbed since the last Reset
 				reading := false // a Read has happened since the last Reset
@@ -442,7 +539,9 @@ func g2(c *vf.Ctx, a *xalg) {
 							return "", true, m
 						}
 					case 'W':
-						p, _, _ := vf.Protect(func() { cur.x.Write(extra[written : written+1]) })
+						w1 := []byte{extra[written]}
+						p, _, _ := vf.Protect(func() { cur.x.Write(w1) })
+						w1[0] ^= 0xFF
 						if reading {
 							if !p {
 								return "", true, "Write after Read does not panic"
@@ -564,21 +663,105 @@ func g3(c *vf.Ctx, a *xalg) {
 		}
 	})
 	// a long real read in unknown-length mode (well beyond 2^16 bytes)
-	n := 200000
+	kmax := 22
 	if c.Thorough {
-		n = 2000000
+		kmax = 24
 	}
+	n := 1<<kmax + 2*a.node
 	want := a.ref(0, key, msg, 0, n)
-	for _, chunk := range []int{4096, 65537} {
+	points := pow2Points(a.node, 5, kmax, uint64(n))
+	chunks := []int{4096, 65537, n, 0, a.node*2048 - 1} // 0 = one Read per gap between the 2^k+{-1,0,1,N-1,N,N+1} points
+	pfor(c, a.name+" section G3-long", len(chunks), func(i int) {
+		chunk := chunks[i]
 		x, _ := a.newXOF(0, key)
 		x.Write(msg)
 		r := &reader{a: a, x: x, total: a.unkStop, want: func(from uint64, k int) []byte { return want[from : from+uint64(k)] }}
 		c.Eval(1)
-		if m := r.drain(chunk, uint64(n)); m != "" {
+		var m string
+		if chunk == 0 {
+			m = r.readTo(points)
+		} else {
+			m = r.drain(chunk, uint64(n))
+		}
+		if m != "" {
 			c.Violation(a.class("long unknown-length read: "+cut(m)), map[string]any{"chunk": chunk, "position": r.pos, "mismatch": m})
 		}
 		c.Nontrivial(fmt.Sprintf("G3long/%s/%d", a.name, chunk))
+	})
+}
+
+// ------------------------------------------------------------------ G6 (long declared lengths)
+
+func g6(c *vf.Ctx, a *xalg) {
+	N := a.node
+	// the BLAKE2X model produces ~8 MB/s: declared lengths up to 2^20 in quick, 2^22 in
+	// thorough (positions up to 2^22 / 2^24 are reached by the unknown-length reads of G3)
+	kmax := 20
+	if c.Thorough {
+		kmax = 22
 	}
+	lens := pow2Points(N, 8, kmax, a.maxLen)
+	key := pattern(c, a.name+"-g6-key", a.maxKey)
+	msg := pattern(c, a.name+"-g6-msg", a.B+1)
+	type lcase struct {
+		size uint64
+		key  []byte
+	}
+	var cases []lcase
+	for i := len(lens) - 1; i >= 0; i-- { // longest first
+		L := lens[i]
+		if L <= 1<<17 {
+			cases = append(cases, lcase{L, nil}, lcase{L, key})
+		} else if i%2 == 0 {
+			cases = append(cases, lcase{L, nil})
+		} else {
+			cases = append(cases, lcase{L, key})
+		}
+	}
+	pfor(c, a.name+" section G6", len(cases), func(i int) {
+		g := cases[i]
+		stream := a.ref(g.size, g.key, msg, 0, int(g.size))
+		want := func(from uint64, n int) []byte { return stream[from : from+uint64(n)] }
+		pk := append([]byte(nil), g.key...)
+		x, err := a.newXOF(g.size, pk)
+		if err != nil {
+			c.Violation(a.class("NewXOF rejects a valid length/key"), map[string]any{"declared_length": g.size, "err": err.Error()})
+			return
+		}
+		clobber(pk)
+		points := pow2Points(N, 5, kmax, g.size)
+		for pi, pat := range []string{"one Read", "oversized Read", "boundaries at 2^k+{-1,0,1,N-1,N,N+1}", "stride 4095", "stride 65537"} {
+			if pi > 0 {
+				x.Reset() // the object is reused: every pattern but the first starts from a drained-and-Reset state
+			}
+			x.Write(msg)
+			r := &reader{a: a, x: x, total: g.size, want: want}
+			var m string
+			switch pi {
+			case 0:
+				m = r.drain(int(g.size), 0)
+			case 1:
+				m = r.drain(int(g.size)+50, 0)
+			case 2:
+				if m = r.readTo(points); m == "" {
+					m = r.drain(N+1, 0)
+				}
+			case 3:
+				m = r.drain(4095, 0)
+			case 4:
+				m = r.drain(65537, 0)
+			}
+			c.Eval(1)
+			if m != "" {
+				c.Violation(a.class("long declared length, "+pat+": "+cut(m)), map[string]any{"declared_length": g.size, "keylen": len(g.key), "position": r.pos, "mismatch": m})
+				return
+			}
+			c.Nontrivial(fmt.Sprintf("G6/%s/%d/%d/%d", a.name, g.size, len(g.key), pi))
+		}
+		if i == 0 {
+			c.Sample(map[string]any{"section": "G6", "alg": a.name, "declared_length": g.size, "keylen": len(g.key), "boundary_points": len(points)})
+		}
+	})
 }
 
 // ------------------------------------------------------------------ G5
